@@ -123,6 +123,12 @@ def check_ref_session(scenario, schedule, stats=None, second=None, **kw):
         # session like any other - it must run to completion and log its own boards
         r2 = SE.run_case(second, schedule, trace=trace, server_obj=r.server)
         probs = SE.completion_problems(second, r2) or SE.log_problems(second, r2)
+        if r2.server_exc is not None and not any(r2.client_state[s_].get('seated') for s_ in range(4)):
+            # nothing promises that a Server object can host two sessions: one that REFUSES the second use with an error before
+            # it seats anybody is not judged (skipped and counted); one that starts and then hangs or loses boards is
+            probs = []
+            if stats is not None:
+                stats.excluded['Server object refused to host a second session (not judged)'] += 1
         if probs:
             raise Violation('second session on the same Server object: ' + probs[0][0], SE.case_of(scenario, schedule, r2, {'second': second}), probs[0][1])
         if stats is not None:
